@@ -167,6 +167,11 @@ impl TryDecode for DisconnectRx {
             return Err(InvalidPacketSize.into());
         }
 
+        // The Reason Code may be omitted: remaining length 0 means 0x00, normal disconnection.
+        if decoder.remaining() == 0 {
+            return builder.build();
+        }
+
         let reason = decoder.try_decode::<DisconnectReason>()?;
         builder.reason(reason);
 
